@@ -2494,6 +2494,8 @@ struct VWorld
             x.template emplace<1>(op.val.sv);
           else
             x.template emplace<2>(op.val.iv);
+          if (op.flag & 2)
+            w[(op.i & 1) ^ 1] = x;  // an equal variant elsewhere (copy assignment of the repeated-type variant)
           break;
         }
       }
@@ -2689,7 +2691,8 @@ VH_TARGET(var_ops, 3,
         if (wn.w[0] == wn.w[1])
         {
           VH_CHECK(c, H(wn.w[0]) == H(wn.w[1]), "equal variants hash differently");
-          c.tag("hash-equal-variants");
+          if (op.kind == V_DUP_EMPLACE)
+            c.tag("hash-equal-variants");
         }
       }
       if (ws.v[0].valueless_by_exception() || ws.v[1].valueless_by_exception() || ws.v[2].valueless_by_exception())
